@@ -26,6 +26,16 @@ for pr in props:
     caught = sum(1 for m in ss if any(r["caught"] for r in m.get("ran", [])))
     rows.append("| %s | %s | %d | %d / %s | %d of %d |" % (pid, pr["title"], nth, fx, ", ".join(op) or "0", caught, len(ss)))
 out += ["\n".join(rows), "\n\n"]
+try:
+    import subprocess
+    log = subprocess.check_output(["git", "-C", "/repo", "log", "--reverse", "--format=%h %s", "e6d95ae..HEAD"]).decode().splitlines()
+    out += ["## Repairs committed to /repo (`fix:` commits, oldest first; %d)\n\n" % len(log),
+            "Every one is a minimal unguarded commit for a genuine defect found by a check, a proof attempt or a model/implementation divergence; "
+            "the 23 ctest entries (79 baseline tests) pass with all of them. No hook commits exist: the checks reach internals by `#include` of the .c file, "
+            "`-Wl,--wrap` and the existing `IW_TESTS` switch, so `-DIOWOW_VERIF=1` currently guards nothing.\n\n",
+            "\n".join("* `%s` %s" % tuple(l.split(" ", 1)) for l in log), "\n\n"]
+except Exception as ex:
+    out += ["(fix list unavailable: %s)\n" % ex]
 if os.path.exists(os.path.join(ROOT, "design_notes", "01_seeded.md")):
     out += [open(os.path.join(ROOT, "design_notes", "01_seeded.md")).read(), "\n"]
 for f in sorted(glob.glob(os.path.join(ROOT, "design_notes", "C*.md"))):
